@@ -289,8 +289,34 @@ def run(repo, rep):
     f = repo.func('__init__', '_new_msg_id')
     rep.analysed(f)
     probs = []
-    tls = init.assigns.get('_tls', [None])[-1]
-    if tls is None or norm(tls) != 'threading.local()':
+    # the object the counter lives on: whatever module-level name the function stores ``.msg_id``-style attributes to
+    tls_name = '_tls'
+    roots_ = {attr_chain(t)[0] for n in ast.walk(f.node) if isinstance(n, (ast.Assign, ast.AugAssign))
+              for t in (n.targets if isinstance(n, ast.Assign) else [n.target])
+              if isinstance(t, ast.Attribute) and attr_chain(t) and len(attr_chain(t)) == 2 and attr_chain(t)[0] in init.assigns}
+    if tls_name not in init.assigns and len(roots_) == 1:
+        tls_name = next(iter(roots_))
+    tls = init.assigns.get(tls_name, [None])[-1]
+
+    def thread_local_object(e) -> bool:
+        """``threading.local()`` or an instance of a package class derived from threading.local whose class body only binds
+        immutable defaults (a mutable class attribute would be shared by all threads again)"""
+        if e is None:
+            return False
+        if norm(e) in ('threading.local()', 'local()'):
+            return True
+        if isinstance(e, ast.Call) and not e.args and not e.keywords:
+            try:
+                r = repo.resolve_expr(e.func, init)
+            except Exception:
+                return False
+            from ..srcmodel import ClassRef
+            if isinstance(r, ClassRef):
+                k = repo.cls(r.module, r.name)
+                if any(b.split('.')[-1] == 'local' and 'threading' in b or b == 'local' for b in k.all_ext_bases()) and not k.methods:
+                    return all(isinstance(v, ast.Constant) for v in k.attrs.values())
+        return False
+    if not thread_local_object(tls):
         probs.append('_tls is %s, not threading.local()' % (norm(tls) if tls is not None else 'missing'))
     for n in ast.walk(f.node):
         if isinstance(n, (ast.Assign, ast.AugAssign)):
@@ -299,18 +325,20 @@ def run(repo, rep):
                 ch = attr_chain(t)
                 if isinstance(t, ast.Name):
                     continue
-                if not (ch and ch[0] == '_tls' and len(ch) == 2):
+                if not (ch and ch[0] == tls_name and len(ch) == 2):
                     probs.append('writes %s, which is not an attribute of the thread-local object' % norm(t))
         if isinstance(n, ast.Global):
             probs.append('uses global %s' % n.names)
     augs = [n for n in ast.walk(f.node) if isinstance(n, ast.AugAssign)]
     if len(augs) != 1 or not isinstance(augs[0].op, ast.Add) or norm(augs[0].value) != '1':
         probs.append('the counter is not incremented by exactly 1')
-    firsts = [n for n in ast.walk(f.node) if isinstance(n, ast.Assign) and norm(n.targets[0]) == '_tls.msg_id']
+    ctr_attr = next((attr_chain(t)[1] for n in ast.walk(f.node) if isinstance(n, ast.AugAssign) for t in [n.target]
+                     if isinstance(t, ast.Attribute) and attr_chain(t) and attr_chain(t)[0] == tls_name), 'msg_id')
+    firsts = [n for n in ast.walk(f.node) if isinstance(n, ast.Assign) and norm(n.targets[0]) == '%s.%s' % (tls_name, ctr_attr)]
     if not firsts or norm(firsts[0].value) != '1':
         probs.append('the first id of a thread is not 1')
     rets = [norm(n.value) for n in ast.walk(f.node) if isinstance(n, ast.Return) and n.value is not None]
-    if any(r != '_tls.msg_id' for r in rets) or not rets:
+    if any(r != '%s.%s' % (tls_name, ctr_attr) for r in rets) or not rets:
         probs.append('returns %s' % rets)
     rep.check(not probs, 'C20.H1', '__init__:_new_msg_id:thread-local', f.loc(), 'thread-local counter 1, 2, 3, ...', '; '.join(probs))
 
